@@ -906,10 +906,7 @@ def correspondence(ctx):
             m = {k: v for k, v in m.items() if k != "canonical"}
         if m != i:
             disagreements.append(Disagreement(c, m, i))
-        if "err" in i or c[0] == "str_to_time":
-            nontrivial.add(core.canon(c))
-        else:
-            nontrivial.add(core.canon(c))
+        nontrivial.add(core.canon(c))     # every distinct second / text is a distinct conversion
     dist["time_to_str"] = len([c for c in tcases if c[0] == "time_to_str"])
     dist["str_to_time"] = len(tcases) - dist["time_to_str"]
     dist["str_to_time.noncanonical_shape_skipped"] = skipped
